@@ -546,7 +546,7 @@ func runC05(c *fw.Ctx) {
 			vs := append([]peer.Variant{}, variants...)
 			undefined := ^peer.DefinedFlags(s.Type)
 			for bit := uint8(1); bit != 0; bit <<= 1 {
-				if undefined&bit != 0 && (thorough || bit == 0x2 || bit == 0x80 || bit == 0x10) {
+				if undefined&bit != 0 { // every bit: the ones that mean something on other frame types (0x1, 0x4, 0x8, 0x20) are the likely slips
 					vs = append(vs, peer.Variant{ExtraFlag: bit})
 				}
 			}
